@@ -9,7 +9,7 @@ from odxgen import values as V
 ID = "C01"
 # LEAN_TARGETS / THEOREMS: filled in by the author of lean/OdxVerif/Model/Codec.lean + Props/C01.lean
 # (planned: OdxVerif.Props.C01, theorems OdxVerif.Codec.C01_roundtrip[_partial], …)
-LEAN_TARGETS = ['OdxVerif.Props.C01', 'OdxVerif.Props.C01Fields', 'OdxVerif.Props.C01Nested', 'OdxVerif.Props.C01Compu']   # + 'OdxVerif.Props.C01DynLeaves' once DynLeafEop follows the compu merge
+LEAN_TARGETS = ['OdxVerif.Props.C01', 'OdxVerif.Props.C01Fields', 'OdxVerif.Props.C01Nested', 'OdxVerif.Props.C01Compu', 'OdxVerif.Props.C01DynLeaves']
 DRIVERS = ["drv_codec"]
 THEOREMS = ["OdxVerif.Codec." + t for t in ['C01_roundtrip_struct', 'C01_roundtrip_mux', 'C01_mux_default_key', 'MuxLeaf.sel_of_case', 'MuxLeaf.sel_of_default', 'MuxLeaf.encode_eq', 'MuxLeaf.decode_eq', 'C01_roundtrip_flat', 'C01_roundtrip_partial', 'C01_frame', 'tree_roundtrip', 'flat_core', 'Tree.encode_eq', 'Tree.decode_eq', 'Trees.good',
                                             # field tier (Props/C01Fields.lean, Proofs/FieldTier*.lean)
@@ -34,7 +34,7 @@ THEOREMS = ["OdxVerif.Codec." + t for t in ['C01_roundtrip_struct', 'C01_roundtr
            ["OdxVerif.Codec." + t for t in ['C01_roundtrip_linear_leaf', 'C01_linear_leaf_encode', 'C01_linear_leaf_decode',
                                             'C01_compu_leaf_strict_encode', 'C01_compu_leaf_strict_decode']]
 # leaves of input-dependent size (Props/C01DynLeaves.lean, Proofs/DynLeaf*.lean)
-DYNLEAF_THEOREMS = ["OdxVerif.Codec." + t for t in [
+THEOREMS += ["OdxVerif.Codec." + t for t in [
     'C01_roundtrip_dynleaves', 'mitems_roundtrip_msg', 'findTerm_spec', 'findTerm_eq_some', 'findTerm_eq_none',
     'encodeDct_minmax', 'decodeDct_minmax', 'mm_byteLen', 'MMLeaf.toMid_ok', 'MMLeaf.gFull_ok', 'MMLeaf.gLast_ok',
     'encodeDct_leading', 'decodeDct_leading', 'LeadLeaf.toG_ok', 'Good.reDec', 'Good.thenRaw', 'Good.bytesAt',
